@@ -260,12 +260,17 @@ def render(spec):
 # the moment the process dies, and what the disk keeps
 
 KILL_PLACES = ['uniform', 'banner', 'after_mem', 'in_mem', 'in_header', 'after_header', 'row_boundary', 'mid_row', 'in_step',
-               'in_loop', 'after_loop', 'in_perf', 'between_blocks']
+               'in_loop', 'after_loop', 'in_perf', 'between_blocks', 'in_char', 'in_char']
 
 
-def place_kill(marks, place, u1, u2):
+def place_kill(marks, place, u1, u2, data=b''):
     """Byte offset in the log text at which the process has written `offset` bytes when it dies.
-    u1, u2 in [0,1) are literal numbers recorded in the operation (no PRNG here)."""
+    u1, u2 in [0,1) are literal numbers recorded in the operation (no PRNG here).
+    'in_char' stops between the bytes of one multi-byte character (a non-ASCII path, comment or print string)."""
+    if place == 'in_char':
+        c = [i for i, b in enumerate(data) if 0x80 <= b <= 0xBF]
+        if c:
+            return c[int(u1 * len(c))]
     total = marks[-1][0]
     spans = [(marks[i][0], marks[i + 1][0], marks[i][1]) for i in range(len(marks) - 1)]
 
